@@ -11,6 +11,7 @@ sys.path.insert(0, str(Path(__file__).resolve().parent))
 sys.path.insert(0, str(Path(__file__).resolve().parent.parent / 'translate'))
 import lib  # noqa
 import c04_cfg  # noqa
+import c04_offsets  # noqa
 
 PID = 'C04'
 ARITY = {'line': 2, 'spring': 2, 'tri': 3, 'quad': 4, 'tet': 4, 'pyr': 5, 'prism': 6, 'hex': 8,
@@ -114,7 +115,7 @@ def load_aliases():
             ALIASES.update(json.loads(line[2:]))
 
 
-def gen_case(rng, cid, stream):
+def gen_case(rng, cid, stream, inplace_p=0.45):
     """stream: 'aligned' | 'permuted' | 'malformed'"""
     c = {'id': cid, 'stream': stream}
     nn = rng.choice([1, 2, 3, 4, 5, 6, 8, 12])
@@ -194,17 +195,23 @@ def gen_case(rng, cid, stream):
     c['reader'] = rng.choice(['files', 'files', 'directory'])
     c['overwrite'] = rng.choice([True, False])      # fresh paths only; a shared path is always overwritten
     c['read_twice'] = rng.random() < 0.25
+    # history of the mesh object itself: every value table (coordinates, nodal variables, single-block
+    # elemental variables) is first built with placeholder values and then overwritten IN PLACE through
+    # the array that attribute.data returns ('edit'); 'write-edit-write' also writes the placeholder
+    # mesh to the same path before the edit.  The property is about the values the mesh holds when it
+    # is written, so the expected file / read-back are those of the final values.
+    c['inplace'] = rng.choice([None, None, 'edit', 'write-edit-write']) if rng.random() < inplace_p else None
     return c
 
 
 INT_DTYPES = ['int64', 'int32', 'float32']
 
 
-def gen_dtype_case(rng, cid):
+def gen_dtype_case(rng, cid, inplace_p=0.45):
     """dtype stream (oracle on the implementation only): coordinates and fields that are not float64;
     all values are small integers, so every dtype holds them exactly and the read-back float64 must be
     numerically identical"""
-    c = gen_case(rng, cid, 'aligned')
+    c = gen_case(rng, cid, 'aligned', inplace_p)
     c['stream'] = 'dtypes'
     c['oracle_only'] = True
     c['drop_NODE'] = False
@@ -372,6 +379,46 @@ Check C04_ucd_roundtrip_unconditional.
 Print Assumptions C04_ucd_roundtrip_unconditional.
 """
 
+# per-run obligation: the reader's line / column arithmetic translated from the tree under test
+# (gen/UcdOffsets.v, s_*) equals, for ALL header counts, the positions the model reads at
+# (Offsets.v, m_*; Model.read_* = "read at m_*" by the reflexivity lemmas bundled in
+# C04_reader_reads_at_named_offsets / C04_reader_headers_at_named_offsets).  The hypotheses are what
+# read_headers establishes for every file: no nodal section (DN = 0) => n_nodal_data = 0, same for
+# the elemental section.
+OFFSETS_V = r"""From Coq Require Import Arith Lia.
+From FV.C04 Require Import Offsets.
+From FV.C04.gen Require Import UcdOffsets.
+Theorem C04_reader_offsets : forall N E DN DE ND NE : nat,
+  (DN = 0 -> ND = 0) -> (DE = 0 -> NE = 0) ->
+  s_nodal_header_line N E DN DE ND NE = m_nodal_header_line N E
+  /\ s_elemental_header_line N E DN DE ND NE = m_elemental_header_line N E ND
+  /\ s_nodes_lo N E DN DE ND NE = m_nodes_lo N /\ s_nodes_hi N E DN DE ND NE = m_nodes_hi N
+  /\ s_elems_lo N E DN DE ND NE = m_elems_lo N E /\ s_elems_hi N E DN DE ND NE = m_elems_hi N E
+  /\ s_nnames_lo N E DN DE ND NE = m_nnames_lo N E ND /\ s_nnames_hi N E DN DE ND NE = m_nnames_hi N E ND
+  /\ s_nrows_lo N E DN DE ND NE = m_nrows_lo N E ND /\ s_nrows_hi N E DN DE ND NE = m_nrows_hi N E ND
+  /\ s_enames_lo N E DN DE ND NE = m_enames_lo N E DN ND NE
+  /\ s_enames_hi N E DN DE ND NE = m_enames_hi N E DN ND NE
+  /\ s_erows_lo N E DN DE ND NE = m_erows_lo N E DN ND NE
+  /\ s_erows_hi N E DN DE ND NE = m_erows_hi N E DN ND NE
+  /\ s_node_first_col N E DN DE ND NE = m_node_first_col
+  /\ s_elem_type_col N E DN DE ND NE = m_elem_type_col
+  /\ s_elem_first_col N E DN DE ND NE = m_elem_first_col
+  /\ s_data_first_col N E DN DE ND NE = m_data_first_col.
+Proof.
+  intros N E DN DE ND NE Hn He.
+  cbv [s_nodal_header_line s_elemental_header_line s_nodes_lo s_nodes_hi s_elems_lo s_elems_hi
+       s_nnames_lo s_nnames_hi s_nrows_lo s_nrows_hi s_enames_lo s_enames_hi s_erows_lo s_erows_hi
+       s_node_first_col s_elem_type_col s_elem_first_col s_data_first_col
+       m_nodal_header_line m_elemental_header_line m_nodes_lo m_nodes_hi m_elems_lo m_elems_hi
+       m_nnames_lo m_nnames_hi m_nrows_lo m_nrows_hi m_enames_lo m_enames_hi m_erows_lo m_erows_hi
+       m_node_first_col m_elem_type_col m_elem_first_col m_data_first_col].
+  destruct DN as [|DN']; destruct ND as [|ND']; destruct DE as [|DE']; destruct NE as [|NE'];
+    cbn [Nat.eqb Nat.min]; repeat split; try lia; try (exfalso; lia); try nia.
+Qed.
+Check C04_reader_offsets.
+Print Assumptions C04_reader_offsets.
+"""
+
 HEADER = ['From Coq Require Import ZArith String List. Import ListNotations.',
           'From FV.C04 Require Import Text Model Corr Props.', 'From FV.C04.gen Require Import UcdCfg.',
           'Definition write_ucd_opt et c m := match write_ucd str tprint et c m with Ok l => Some l | Err _ => None end.',
@@ -442,7 +489,7 @@ def describe(c):
 
 def case_for_replay(c):
     d = {k: c[k] for k in ('nodes', 'elems', 'drop_NODE', 'nodal', 'elemental', 'stream')}
-    for k in ('reader', 'overwrite', 'read_twice', 'oracle_only'):
+    for k in ('reader', 'overwrite', 'read_twice', 'oracle_only', 'inplace'):
         if k in c:
             d[k] = c[k]
     if c.get('path_key'):
@@ -469,6 +516,7 @@ def check_cases(ctx, cases, etypes, cfg, tag, tie_ok):
         ctx.count('stream:' + c['stream'])
         ctx.count('history:' + ('same-path-rewrite' if c.get('_prev') else 'fresh-path'))
         ctx.count('reader:' + c.get('reader', 'files'))
+        ctx.count('object_history:' + (c.get('inplace') or 'as-constructed'))
         if c.get('stream') == 'dtypes':
             ctx.count('node_dtype:' + c['nodes'].get('dtype', 'float64'))
         ctx.count('n_types:%d' % len(c['elems']))
@@ -527,7 +575,8 @@ def check_cases(ctx, cases, etypes, cfg, tag, tie_ok):
                'diff_only_in_misaligned_sections': all(s in al and not al[s] for s in secs),
                'explained_by_model': bool(tie_ok and cid not in bad_w and cid not in bad_r
                                           and cid in model_false),
-               'history': 'same-path-rewrite' if c.get('_prev') else 'fresh-path'}
+               'history': 'same-path-rewrite' if c.get('_prev') else 'fresh-path',
+               'object_history': c.get('inplace') or 'as-constructed'}
         listed = ctx.violation(
             'impl-violation', case_for_replay(c),
             'every value read back under the id it was written for (bit exact)',
@@ -609,16 +658,36 @@ def main(ctx):
         'variables are 2-D float64 arrays; 1-D / 3-D variables are skipped by the writer (modelled by a flag)',
     ]
     load_aliases()
-    # 1. translate
-    tie_ok, cfg = True, None
+    # 1. translate.  A region the translator cannot read is NOT an alarm by itself (policy round 5):
+    #    its committed baseline model (translate/c04_cfg.py:BASELINE = coq/C04/gen_baseline/UcdCfg.v,
+    #    the last translation of the registered tree) becomes the hand model of that region, the
+    #    theorems are built against it and the correspondence below is widened; only a concrete
+    #    disagreement (a failing input) is then a violation.
+    tie_ok, cfg, degraded = True, None, []
     try:
-        cfg, consumed = c04_cfg.translate(str(lib.REPO))
+        cfg, consumed, degraded = c04_cfg.translate(str(lib.REPO), degrade=True)
         ctx.sources = consumed
         lib.write_if_changed(lib.COQ / 'C04' / 'gen' / 'UcdCfg.v', c04_cfg.emit(cfg))
-    except (c04_cfg.TranslateError, SyntaxError, OSError) as e:
+        base = lib.COQ / 'C04' / 'gen_baseline' / 'UcdCfg.v'
+        if degraded and base.read_text() != c04_cfg.emit(c04_cfg.BASELINE):
+            raise c04_cfg.TranslateError('committed baseline model differs from translate/c04_cfg.py:BASELINE')
+    except (c04_cfg.TranslateError, SyntaxError, OSError, AssertionError) as e:
         tie_ok = False
         ctx.log('translator failed closed:', e)
         ctx.notes['translator_error'] = str(e)
+    # 1b. the reader's offsets (translate/c04_offsets.py): same policy
+    OFF_REGION = 'femio/formats/ucd/ucd.py:UCDData.read_* line and column arithmetic'
+    try:
+        off, sha = c04_offsets.translate(str(lib.REPO))
+        ctx.sources[OFF_REGION] = sha
+        off_text = c04_offsets.emit(off)
+    except (c04_offsets.TranslateError, SyntaxError, OSError, RecursionError) as e:
+        degraded.append((OFF_REGION, f'{type(e).__name__}: {e}'))
+        off_text = (lib.COQ / 'C04' / 'gen_baseline' / 'UcdOffsets.v').read_text()
+    lib.write_if_changed(lib.COQ / 'C04' / 'gen' / 'UcdOffsets.v', off_text)
+    for reg, why in degraded:
+        ctx.log(f'translator could not read {reg}: {why} -> baseline model + widened correspondence')
+    ctx.notes['translator_degraded'] = [{'region': r, 'reason': w} for r, w in degraded]
     etypes = cfg['element_types'] if cfg else list(ARITY) + list(SECOND_ORDER_UNSUPPORTED)
     # 2. proofs
     proof_ok = False
@@ -645,6 +714,18 @@ def main(ctx):
         for nm in ('C04_cfg_ok', 'C04_ucd_roundtrip_unconditional'):
             ctx.obligations.append({'name': nm, 'discharged': cfg_is_ok, 'assumptions': ax, 'note': note})
     ctx.notes['cfg_ok'] = cfg_is_ok
+    # 2c. per-run obligation: translated reader offsets = the positions the model reads at
+    offsets_ok = None
+    if tie_ok and proof_ok:
+        ok, log, _ = lib.coq_make(['C04/gen/UcdOffsets.vo', 'C04/Offsets.vo'])
+        rc, out, err = ctx.coq_eval('ReaderOffsets', OFFSETS_V) if ok else (1, '', log)
+        offsets_ok = rc == 0
+        ax = [] if 'Closed under the global context' in out else re.findall(r'^([A-Za-z0-9_.\']+)\s*:', out, flags=re.M)
+        ctx.obligations.append({
+            'name': 'C04_reader_offsets', 'discharged': offsets_ok, 'assumptions': ax,
+            'note': '' if offsets_ok else 'the offsets translated from ucd.py differ from the model\'s for some '
+                                          'header counts (gen/UcdOffsets.v vs Offsets.v): ' + err[-300:]})
+        ctx.notes['reader_offsets'] = off_text.split('From Coq Require Import Arith.')[-1].strip().splitlines()
     # 3. hypothesis exercised
     hb = hypothesis_check(ctx, 20000 if ctx.tier == 'quick' else 400000)
     ctx.notes['repr_roundtrip_failures'] = hb
@@ -662,22 +743,31 @@ def main(ctx):
         cid += 1
         cases.append(c)
     n = {'quick': (150, 40, 20), 'thorough': (3500, 1000, 500)}[ctx.tier]
+    n_dtype = {'quick': 12, 'thorough': 300}[ctx.tier]
+    inplace_p = 0.45
+    if degraded and ctx.tier == 'quick':
+        # widened correspondence: everything the unread region decides is exercised much more densely --
+        # id arrangements of every variable against the mesh (binding mode), mixed element types
+        # (ELEMENT_TYPES order), object histories (in-place edits, rewrite of one path: file layer)
+        n, n_dtype, inplace_p = (200, 220, 30), 30, 0.6
     for stream, k in zip(('aligned', 'permuted', 'malformed'), n):
         for _ in range(k):
-            cases.append(gen_case(ctx.rng, cid, stream))
+            cases.append(gen_case(ctx.rng, cid, stream, inplace_p))
             cid += 1
-    # same-process history stream: every third well-formed case is written to and read from one
-    # shared path (write A, read, write B with overwrite=True, read, ...); each read is
-    # compared with what was written last
-    for _ in range({'quick': 12, 'thorough': 300}[ctx.tier]):
-        cases.append(gen_dtype_case(ctx.rng, cid))
+    # dtype stream (oracle only)
+    for _ in range(n_dtype):
+        cases.append(gen_dtype_case(ctx.rng, cid, inplace_p))
         cid += 1
     gen = cases[len(corpus):]
     ctx.rng.shuffle(gen)
     cases = cases[:len(corpus)] + gen
     for i, c in enumerate(cases):
         c['id'] = i
-        if i % 3 == 0:      # malformed cases too: a failed write must not leak into the next read
+        # same-process history stream: every third case (every second one when a region is unread) is
+        # written to and read from one shared path (write A, read, overwrite with B, read, ...); each
+        # read is compared with what was written last.  Malformed cases too: a failed write must not
+        # leak into the next read
+        if i % (2 if degraded else 3) == 0:
             c['path_key'] = 'h'
     if tie_ok:
         ok, log, _ = lib.coq_make(['C04/Corr.vo', 'C04/gen/UcdCfg.vo'])
@@ -693,11 +783,25 @@ def main(ctx):
         n_unlisted += check_cases(ctx, cases[k:k + step], etypes, cfg, f'g{k // step}', tie_ok_model)
     # 5. proof / tie broken without a failing input
     found_any = bool(ctx.violations) or bool(ctx.known)
+    n_corr = ctx.corr.get('cases', 0)
+    if degraded and tie_ok:
+        ctx.notes['tie'] = '; '.join(
+            f'H (translator could not read {r}: {w}; baseline model + widened correspondence, {n_corr} cases)'
+            for r, w in degraded)
+        for o in ctx.obligations:
+            o['note'] = (o.get('note', '') + ' [checked against the committed baseline model of: '
+                         + ', '.join(r for r, _ in degraded) + ']').strip()
+    else:
+        ctx.notes['tie'] = 'T (all regions translated) + H (correspondence, %d cases)' % n_corr
     if not tie_ok:
         ctx.violation('tie-broken', {'translator_error': ctx.notes.get('translator_error')},
-                      'translator accepts UCDWriter.write / ELEMENT_TYPES', 'fail-closed',
-                      'translator c04_cfg', found_input=False, signature={'kind': 'tie-broken'})
-    elif not proof_ok:
+                      'translator accepts UCDWriter.write / ELEMENT_TYPES or the baseline model is usable',
+                      'neither', 'translator c04_cfg', found_input=False, signature={'kind': 'tie-broken'})
+    elif not tie_ok_model:
+        ctx.violation('tie-broken', {'what': 'the model (Corr.v + gen/UcdCfg.v) does not build'},
+                      'model builds', 'does not build', 'C04/Corr.vo', found_input=False,
+                      signature={'kind': 'tie-broken', 'model': 'does not build'})
+    elif not proof_ok or offsets_ok is False:
         bad = [o['name'] for o in ctx.obligations if not o['discharged']]
         ctx.violation('proof-broken', {'undischarged': bad, 'failing_input_reported_separately': found_any},
                       'all theorems of C04/Props.v check', 'do not check', ', '.join(bad),
@@ -718,11 +822,9 @@ def replay(path):
     load_aliases()
     c = dict(c)
     c['id'] = 0
-    try:
-        cfg, _ = c04_cfg.translate(str(lib.REPO))
-    except c04_cfg.TranslateError as e:
-        print('translator failed closed:', e)
-        cfg = {'element_types': list(ARITY) + list(SECOND_ORDER_UNSUPPORTED)}
+    cfg, _, dg = c04_cfg.translate(str(lib.REPO), degrade=True)
+    for reg, why in dg:
+        print(f'translator could not read {reg}: {why}; baseline model used')
     etypes = cfg['element_types']
     if c.get('preceded_by'):
         prev = dict(c['preceded_by'])
